@@ -16,7 +16,7 @@ VERIF = os.path.dirname(os.path.dirname(os.path.abspath(__file__)))
 SPEC = os.path.join(VERIF, "spec")
 OUT = os.path.join(VERIF, "out")
 HARNESS = os.path.join(VERIF, "harness")
-KV = os.path.join(HARNESS, "target", "debug", "kv")
+BIN = os.path.join(HARNESS, "target", "debug")
 JAR = "/opt/veriftools/tla/tla2tools.jar"
 
 
@@ -178,7 +178,7 @@ def tlc_validate(module, cfg, trace_path, timeout=900, tag="tv"):
 
 def run_kv(driver, scen_path, trace_path, extra=(), timeout=1200):
     build_harness()
-    out = sh([KV, driver, "--in", scen_path, "--out", trace_path] + list(extra), timeout, ok_codes=(0,))
+    out = sh([os.path.join(BIN, driver), "--in", scen_path, "--out", trace_path] + list(extra), timeout, ok_codes=(0,))
     return out
 
 
